@@ -21,6 +21,10 @@ pub struct RCase {
     pub tcp: bool,
     /// proxies (cycled) that are unreachable during recovery in the tcp variant
     pub unreachable: Vec<bool>,
+    /// delayed replica-sync messages: (position in the continued history, which pre-crash snapshot) -
+    /// a PUT /metadata carrying an OLD copy of the store reaches the recovered broker
+    #[serde(default)]
+    pub late_sync: Vec<(u16, u16)>,
 }
 
 pub fn strategy(tcp: bool) -> impl Strategy<Value = RCase> {
@@ -30,8 +34,9 @@ pub fn strategy(tcp: bool) -> impl Strategy<Value = RCase> {
         any::<u16>(),
         prop::collection::vec(prop_oneof![3 => Just(u16::MAX), 2 => any::<u16>()], 1..8),
         prop::collection::vec(prop::bool::weighted(0.2), 1..5),
+        prop::collection::vec((any::<u16>(), any::<u16>()), 0..3),
     )
-        .prop_map(move |(base, crash_at, snapshot_at, held, unreachable)| RCase { base, crash_at, snapshot_at, held, tcp, unreachable })
+        .prop_map(move |(base, crash_at, snapshot_at, held, unreachable, late_sync)| RCase { base, crash_at, snapshot_at, held, tcp, unreachable, late_sync })
 }
 
 fn responders(rt: &tokio::runtime::Runtime, epochs: &BTreeMap<String, u64>) -> Vec<tokio::task::JoinHandle<()>> {
@@ -212,7 +217,36 @@ pub fn check_case(case: &RCase, obs: &mut Obs) -> Result<(), Fail> {
     let mut oracle = c04::C04Oracle::default();
     oracle.init(cfg, &v, &mut Obs::default())?;
     let mut pre = v;
+    let remaining = ops.len() - crash;
     for (i, op) in ops.iter().enumerate().skip(crash) {
+        // a delayed replica-sync message with an older copy of the store arrives now
+        for (at, which) in &case.late_sync {
+            if crash + pick(*at, remaining.max(1)) == i {
+                let old = snapshots[pick(*which, snapshots.len())].clone();
+                // only copies the broker itself classifies as older (smaller global epoch) are delivered: a
+                // pre-crash copy whose global epoch is not smaller than the recovered one (registrations and
+                // failure reports raise the global epoch without touching any view) is, to the broker, a
+                // legitimate newer store - replacing the state by it is outside this property
+                let old_epoch = old.get("global_epoch").and_then(|x| x.as_u64()).unwrap_or(u64::MAX);
+                if old_epoch >= sim.views().epoch {
+                    obs.class("late-replica-sync:copy-not-older-than-recovered-state(skipped)");
+                    continue;
+                }
+                let accepted = match serde_json::from_value(old) {
+                    Ok(store) => sim.rt.block_on(sim.svc.restore_metadata(store)).is_ok(),
+                    Err(_) => false,
+                };
+                obs.class(if accepted { "late-replica-sync:accepted" } else { "late-replica-sync:refused" });
+                let now = sim.views();
+                check_epochs(&now, "after a delayed replica-sync message with an older copy of the store")?;
+                c01::check_views(&now, &mut Obs::default())?;
+                if accepted {
+                    oracle = c04::C04Oracle::default();
+                    oracle.init(cfg, &now, &mut Obs::default())?;
+                }
+                pre = now;
+            }
+        }
         if matches!(op, Op::AutoScale { .. } | Op::AutoScaleSmart { .. }) && case.tcp {
             continue;
         }
@@ -228,7 +262,7 @@ pub fn check_case(case: &RCase, obs: &mut Obs) -> Result<(), Fail> {
     Ok(())
 }
 
-pub const RULE: &str = "generated broker histories; a crash point after any prefix; restart of a NEW MemBrokerService from the snapshot taken after any earlier prefix (production restart path); every proxy holds the epoch of some view that was ever served for it (generated, biased to the newest); epoch recovery with the largest held epoch through hook H2 (bulk) and through the production recover_epoch over loopback TCP responders (some unreachable); oracle: every view served afterwards (right away and after the rest of the history) has an epoch above every asked proxy's epoch, C01 partition and C04 versioning hold from there; non-trivial = snapshot strictly older than the newest proxy epoch and taken mid-migration or mid-failover; distinct = hash of the generated case";
+pub const RULE: &str = "generated broker histories; a crash point after any prefix; restart of a NEW MemBrokerService from the snapshot taken after any earlier prefix (production restart path); every proxy holds the epoch of some view that was ever served for it (generated, biased to the newest); epoch recovery with the largest held epoch through hook H2 (bulk) and through the production recover_epoch over loopback TCP responders (some unreachable); during the continued history up to two delayed replica-sync messages (PUT /metadata with a pre-crash copy of the store) arrive; oracle: every view served afterwards (right away, after the rest of the history and after every such message) has an epoch above every asked proxy's epoch, C01 partition and C04 versioning hold from there; non-trivial = snapshot strictly older than the newest proxy epoch and taken mid-migration or mid-failover; distinct = hash of the generated case";
 
 pub fn run(ctx: &Ctx, findings: &Findings) -> PropReport {
     let mut subs = vec![];
